@@ -102,3 +102,22 @@ Print Assumptions C05_no_merge_without_rep.
 Print Assumptions C05_K1_witness.
 Print Assumptions C05_never_loses.
 Print Assumptions C05_never_loses_example.
+
+(* NON-VACUITY (Proofs/NonVacuity.v, worlds W2m and W2n): C05_never_loses applied to ["ba","bb"]:
+   everything the build without repetition conversion (b[ab]) accepts is accepted by the build
+   with it (b{1,2}a?), the input on which trie widening happens. *)
+From Grex Require Proofs.NonVacuity.
+Theorem C05_nonvacuous : exists e s e' s',
+  NonVacuity.world_ok NonVacuity.c_W2m NonVacuity.db_W2m SCPass1 NonVacuity.ws_W2m false e s
+  /\ NonVacuity.world_ok NonVacuity.c_W2n NonVacuity.db_W2n SCPass1 NonVacuity.ws_W2n true e' s'
+  /\ (forall (lit cls : cp -> cp -> Prop) u, L_expr lit cls e' u -> L_expr lit cls e u).
+Proof.
+  pose proof NonVacuity.W2m as W. pose proof NonVacuity.W2n as W'. do 4 eexists.
+  split; [exact W|]. split; [exact W'|].
+  intros lit cls u.
+  exact (C05_never_loses lit cls NonVacuity.c_W2m NonVacuity.c_W2n NonVacuity.db_W2m SCPass1 SCPass1 NonVacuity.ws_W2m _ _
+           (conj eq_refl (conj eq_refl (conj eq_refl (conj eq_refl (conj eq_refl (conj eq_refl eq_refl))))))
+           eq_refl (NonVacuity.w_nonempty _ _ _ _ _ _ _ W) (NonVacuity.w_oracle _ _ _ _ _ _ _ W)
+           (NonVacuity.w_expr _ _ _ _ _ _ _ W) (NonVacuity.w_expr _ _ _ _ _ _ _ W') u (or_intror NonVacuity.W2m_K4)).
+Qed.
+Print Assumptions C05_nonvacuous.
